@@ -7,6 +7,7 @@
 pub mod director;
 pub mod evlog;
 pub mod fork;
+pub mod istep;
 pub mod jsonw;
 pub mod p_channel;
 pub mod p_halflock;
@@ -30,6 +31,7 @@ pub mod w_origin;
 pub mod w_pipe;
 pub mod w_iter;
 pub mod w_reg;
+pub mod w_step;
 pub mod w_strace;
 
 pub use signal_hook_registry::verif::site;
